@@ -1017,27 +1017,6 @@ def _cls_linecircle_inhomogeneous(fname, rel, s1, s2, det):
     return r * m0sq > b1
 
 
-def _cls_circle_axis_band(fname, rel, s1, s2, det):
-    """point_to_circle (and line_segment_to_circle, which clamps to an end point and delegates): query point closer
-    than 1e-3 (absolute: in-plane distance^2 < epsilon = 1e-6) to the circle's axis in one of the two scenes: an
-    arbitrary rim point (from a frame-dependent basis) is returned together with sqrt(r^2 + h^2).
-    Same defect as F-c10-circle-axis-band / F-C11-circle-axis-band."""
-    if fname not in ("point_to_circle", "line_segment_to_circle"):
-        return False
-    if not (det["what"] == "points" or (det["what"] == "d" and rel == "scale")):
-        return False
-    c, n = A(s2["c"]), A(s2["n"])
-    pts = [A(s1["p"])] if s1["kind"] == "point" else [A(s1["a"]), A(s1["b"])]
-    s = float((det.get("motion") or {}).get("s", 1.0))
-    for q in pts:
-        diff = q - c
-        dip = diff - float(diff.dot(n)) * n
-        d2 = float(dip.dot(dip))
-        if d2 < 1e-6 or s * s * d2 < 1e-6:
-            return True
-    return False
-
-
 def _cls_mpr_depth(fname, rel, s1, s2, det):
     """mpr_penetration, depth output: the depth is the distance of the origin to the LAST portal triangle; which
     portal is reached depends on the order of the arguments (every orientation test of _expand_portal flips), on
@@ -1145,7 +1124,6 @@ _FINDING_CLASSES = [
     ("F-c12-disk-parallel-frame", _cls_disk_parallel),
     ("F-c12-disk-order", _cls_disk_order),
     ("F-c12-linecircle-aligned", _cls_linecircle_aligned),
-    ("F-c12-circle-axis-band", _cls_circle_axis_band),
     ("F-c12-linecircle-inhomogeneous", _cls_linecircle_inhomogeneous),
     ("F-c12-mpr-depth-path", _cls_mpr_depth),
     ("F-c12-epa-degenerate-simplex", _cls_epa_degenerate),
